@@ -264,9 +264,10 @@ func (p Profile) genStep(t *rapid.T, conns int, table []Op) Step {
 	case OpSilence:
 		st.Count = uint32(pick(t, "silence_frames", []int{1, 3, 10, 30, 70, 140}))
 	}
-	if p.Hostile && (st.Op == OpQuad || st.Op == OpGround || st.Op == OpRegion) && uni(t, "hostile_floats", 3) == 0 {
+	if p.Hostile && (st.Op == OpQuad || st.Op == OpGround || st.Op == OpRegion) && uni(t, "hostile_floats", 2) == 0 {
+		all := uni(t, "hf_all", 2) == 0
 		for i := range st.F {
-			if uni(t, "hf_which", 3) == 0 {
+			if all || uni(t, "hf_which", 3) == 0 {
 				st.F[i] = pick(t, "hf", []uint32{0x7fc00000, 0x7f800000, 0xff800000, math.Float32bits(3.4e38), math.Float32bits(-3.4e38), math.Float32bits(1e9), math.Float32bits(-1e9), math.Float32bits(1e-40), 0x80000000, math.Float32bits(5000)})
 			}
 		}
